@@ -162,9 +162,26 @@ impl Trace {
     }
 }
 
-/// Run a call of the code under test; a panic is data ("panic" field), not a crash.
+// Run a call of the code under test; a panic is data ("panic" field), not a crash.
+thread_local! {
+    pub static IN_GUARD: std::cell::Cell<u32> = std::cell::Cell::new(0);
+}
+
+/// Panic hook: silent for panics of the code under test (they are recorded as
+/// data), loud for the harness's own bugs.
+pub fn install_hook() {
+    std::panic::set_hook(Box::new(|info| {
+        if IN_GUARD.with(|g| g.get()) == 0 {
+            eprintln!("HARNESS BUG: {}", info);
+        }
+    }));
+}
+
 pub fn guarded<T, F: FnOnce() -> T>(f: F) -> Result<T, String> {
-    match std::panic::catch_unwind(std::panic::AssertUnwindSafe(f)) {
+    IN_GUARD.with(|g| g.set(g.get() + 1));
+    let r = std::panic::catch_unwind(std::panic::AssertUnwindSafe(f));
+    IN_GUARD.with(|g| g.set(g.get() - 1));
+    match r {
         Ok(v) => Ok(v),
         Err(e) => {
             let msg = if let Some(s) = e.downcast_ref::<&str>() {
